@@ -386,7 +386,31 @@ class StreamModel(Model):
         return None
 
     def for_source(self, st, node, srcv, K, stop):
-        return None
+        """for x in <stream>: element k is NTHS(S, k); stops after
+        LEN(SEQOF(S)) elements of a finite stream; a failing stream raises at
+        position FAILAT(S)."""
+        if not isinstance(srcv, VStream):
+            return None
+        E = self.E
+        s = srcv.t
+        line = node.lineno
+        FAILAT = z3.Function("FAILAT", self.STREAM, IntS)
+        st.assume((FAILAT(s) >= 0) == self.FAILS(s))
+        st.assume(FAILAT(s) >= -1)
+        st.assume(z3.Implies(self.FIN(s),
+                             FAILAT(s) <= self.LEN(self.SEQOF(s))))
+        st.ghost["__forstream"] = VStream(s)
+
+        def pull():
+            if st.branch(K() == FAILAT(s), f"forstream-fail@{line}"):
+                st.ghost["__failed"] = True
+                raise E.RaiseEx("Foreign", line, "stream failed")
+            if st.branch(z3.And(self.FIN(s),
+                                K() >= self.LEN(self.SEQOF(s))),
+                         f"forstream-stop@{line}"):
+                stop()
+            return VU(self.NTHS(s, K()))
+        return pull
 
     # ---- comprehensions over lists -----------------------------------------
     def comprehension(self, st, node, kind):
